@@ -188,12 +188,31 @@ void judge(const Outcome& o, const Expect& e, const Counters& cnt, Result& r, co
         r.violation(cell + ":computed-before-raising", sf("%ld kernel and %ld distance evaluations before %s was raised", (long)cnt.k, (long)cnt.d, e.what.c_str()));
 }
 
-tapkee::ParametersSet shuffled(std::vector<tapkee::Parameter> ps, Rng& g)
+// The request is assembled the way callers write it, (a, b, c, ...): Parameter::operator, makes the set out of the first two
+// keywords and ParametersSet::operator, appends the others; one time in four through ParametersSet::add instead.
+// keep_front > 0 leaves the first keep_front keywords where they are (e.g. a duplicated pair at the very front).
+tapkee::ParametersSet shuffled(std::vector<tapkee::Parameter> ps, Rng& g, int keep_front = 0)
 {
-    g.shuffle(ps);
+    if (keep_front > 0)
+    {
+        std::vector<tapkee::Parameter> tail(ps.begin() + keep_front, ps.end());
+        g.shuffle(tail);
+        std::copy(tail.begin(), tail.end(), ps.begin() + keep_front);
+    }
+    else
+        g.shuffle(ps);
     tapkee::ParametersSet set;
-    for (auto& p : ps)
-        set.add(p);
+    if (g.below(4) == 0 || ps.empty())
+    {
+        for (auto& p : ps)
+            set.add(p);
+        return set;
+    }
+    if (ps.size() == 1)
+        return static_cast<tapkee::ParametersSet>(ps[0]);
+    set = ps[0].operator,(ps[1]);
+    for (size_t i = 2; i < ps.size(); ++i)
+        set.operator,(ps[i]);
     return set;
 }
 
@@ -240,10 +259,11 @@ void run_table(const Case& c, Result& r)
     for (const char* q : NB_METHODS)
         if (m == q)
             uses_nb = true;
+    int keep_front = 0;
     auto request = [&](std::vector<Parameter> v, const Expect& e, const std::string& cell, int mask = 7, int n_override = -1) {
         cnt.reset();
         seed(c);
-        Outcome o = form_counting(mask, g.below(6), X, shuffled(v, g), cnt, g.uni() < 0.5, n_override);
+        Outcome o = form_counting(mask, g.below(6), X, shuffled(v, g, keep_front), cnt, g.uni() < 0.5, n_override);
         judge(o, e, cnt, r, m + ":" + cell);
     };
     struct Row
@@ -346,6 +366,34 @@ void run_table(const Case& c, Result& r)
         v2.push_back(gaussian_kernel_width = 3.0);
         v2.push_back(gaussian_kernel_width = 3.0);
         request(v2, {"multiple_parameter_error"}, "triplicate-width");
+        // the repeated keyword in the first two, the last two and the first and last positions of the comma expression
+        for (int place = 0; place < 3; ++place)
+        {
+            std::vector<Parameter> b = base_params(m, N, g);
+            int w = g.below((int)b.size());
+            Parameter twin = b[w];
+            std::vector<Parameter> v3;
+            if (place == 0)
+            {
+                v3.push_back(twin);
+                v3.push_back(twin);
+            }
+            if (place == 2)
+                v3.push_back(twin);
+            std::vector<Parameter> others;
+            for (int i = 0; i < (int)b.size(); ++i)
+                if (i != w)
+                    others.push_back(b[i]);
+            g.shuffle(others);
+            v3.insert(v3.end(), others.begin(), others.end());
+            if (place >= 1)
+                v3.push_back(twin);
+            if (place == 1)
+                v3.push_back(twin);
+            keep_front = (int)v3.size(); // order as built
+            request(v3, {"multiple_parameter_error"}, std::string(place == 0 ? "duplicate-first-two" : place == 1 ? "duplicate-last-two" : "duplicate-first-and-last"));
+            keep_front = 0;
+        }
     }
     // missing method
     {
